@@ -134,7 +134,7 @@ Definition check_step (kgf : bytes -> N) (y : cst) (st : ostep) : cst * list N :
   match st with
   | OBatch evs resp o_evs o_states =>
       let keys := sort_keys (distinct_keys [] evs) in
-      let model := fetch_states list_kv kgf keys (c_db y) in
+      let model := option_map fst (fetch_states list_kv kgf keys (c_db y)) in
       let db' := fold_left (apply_result list_kv kgf (fun _ _ => true)) resp (c_db y) in
       let y' := {| c_db := db'; c_saved := c_saved y; c_log := olog_response (c_log y) resp; c_lsaved := c_lsaved y |} in
       let codes :=
